@@ -208,6 +208,13 @@ def case_cmp(r):
             if r.random() < 0.7:
                 b[-1] = (b[-1] + r.choice([1, 255])) % 256
             bodies.append(bytes(b))
+    if comp and r.random() < 0.3:
+        # same body, compound parts far apart: the difference does not fit an int (2^31, 2^32 and multiples, 2^62)
+        bodies = [bodies[0]] * 3
+        lo = r.choice([0, 1, cbase % (1 << 61)])
+        comps = [lo] + [min((1 << 63) - 1, lo + r.choice([1, (1 << 31) - 1, 1 << 31, (1 << 31) + 1, (1 << 32) - 1, 1 << 32, (1 << 32) + 1,
+                                                       3 << 31, 1 << 33, 5 << 32, 1 << 62, (1 << 62) + (1 << 32)])) for _ in range(2)]
+        r.shuffle(comps)
     if r.random() < 0.3:
         bodies[2], comps[2] = bodies[0], comps[0]      # identical pair
     keys = list(zip(bodies, comps))
